@@ -293,6 +293,11 @@ type verifCand struct {
 
 const verifZeroTimeUnix = -62135596800 // time.Time{}.Unix()
 
+const verifTimestampLabelDefault = "record timestamp equals the encoded timestamp in ms (CreateTime: base+delta, LogAppendTime: max; none for magic 0)"
+
+// label of the timestamp assertion (a harness that isolates one timestamp rule sets its own)
+var verifTimestampLabel = verifTimestampLabelDefault
+
 func verifHeadersEq(got []RecordHeader, want []verifRefHeader) bool {
 	if len(got) != len(want) {
 		return false
@@ -344,7 +349,7 @@ func verifCompareRecords(got []*Record, cands []verifCand, topic string, partiti
 	verifAssert(okAttrs, "record attributes equal the batch/message attributes")
 	verifAssert(okProd, "producer id, producer epoch and leader epoch equal the batch's (-1 for message sets)")
 	verifAssert(okTP, "record topic and partition are the requested ones")
-	verifAssert(okTS, "record timestamp equals the encoded timestamp in ms (CreateTime: base+delta, LogAppendTime: max; none for magic 0)")
+	verifAssert(okTS, verifTimestampLabel)
 }
 
 func verifMaxInt64(a, b int64) int64 { return verifIteInt64(a > b, a, b) }
